@@ -4,18 +4,20 @@ import math
 import z3
 
 from .values import *   # noqa
-from .execu import ExecError
+from .execu import ExecError, Panic
 from .builtins import B
 
 _UF = {}
 
 
-def uf(name, ty, arity):
-    key = (name, ty, arity)
+def uf(name, ty, arity, family='libm'):
+    """Uninterpreted function standing for a transcendental function.  The libm crate's functions and the std
+    methods (family 'stdm': the platform's libm) are *different* functions: nothing guarantees bit-equal results."""
+    key = (name, ty, arity, family)
     f = _UF.get(key)
     if f is None:
         s = FLOAT_TYPES[ty]
-        f = z3.Function('libm_%s_%s' % (name, ty), *([s] * arity + [s]))
+        f = z3.Function('%s_%s_%s' % (family, name, ty), *([s] * arity + [s]))
         _UF[key] = f
     return f
 
@@ -55,7 +57,7 @@ def bi_fabs(ex, st, info, args):
     return Flt(x.ty, z3.fpAbs(x.v))
 
 
-def _uf_builtin(name, arity):
+def _uf_builtin(name, arity, family='libm'):
     def f(ex, st, info, args):
         ty = args[0].ty
         if all(a.concrete for a in args) and ex.concrete_libm:
@@ -64,7 +66,7 @@ def _uf_builtin(name, arity):
                 return mk_flt(ty, fn(*[a.v for a in args]))
             except (ValueError, OverflowError):
                 return mk_flt(ty, float('nan'))
-        return Flt(ty, uf(name, ty, arity)(*[to_fp(a) for a in args]))
+        return Flt(ty, uf(name, ty, arity, family)(*[to_fp(a) for a in args]))
     return f
 
 
@@ -129,6 +131,12 @@ def _py_round_away(v):
 
 
 _fmethod('round')(_rounder(z3.RNA(), _py_round_away))
+for _n in ('libm::round', 'round', 'libm::roundf', 'roundf'):
+    B.paths[_n] = _rounder(z3.RNA(), _py_round_away)
+for _n in ('libm::rint', 'rint', 'libm::rintf', 'rintf', 'libm::roundeven', 'libm::roundevenf'):
+    B.paths[_n] = _rounder(z3.RNE(), lambda v: round(v))
+for _n in ('libm::truncf', 'truncf'):
+    B.paths[_n] = _rounder(z3.RTZ(), math.trunc)
 _fmethod('round_ties_even')(_rounder(z3.RNE(), lambda v: round(v)))
 _fmethod('floor')(_rounder(z3.RTN(), math.floor))
 _fmethod('ceil')(_rounder(z3.RTP(), math.ceil))
@@ -176,7 +184,7 @@ def f_rem_euclid(ex, st, info, args):
 
 for _n, _a in (('sin', 1), ('cos', 1), ('tan', 1), ('atan', 1), ('asin', 1), ('acos', 1), ('exp', 1), ('ln', 1), ('atan2', 2), ('hypot', 2), ('powf', 2)):
     for _t in ('f64', 'f32'):
-        B.paths['%s::%s' % (_t, _n)] = _uf_builtin({'ln': 'log', 'powf': 'pow'}.get(_n, _n), _a)
+        B.paths['%s::%s' % (_t, _n)] = _uf_builtin({'ln': 'log', 'powf': 'pow'}.get(_n, _n), _a, 'stdm')
 
 
 @_fmethod('powi')
@@ -200,3 +208,20 @@ def f_is_finite(ex, st, info, args):
         return not (math.isinf(x.v) or x.v != x.v)
     from .execu import fp_atom
     return fp_atom(z3.Not(z3.Or(z3.fpIsInf(x.v), z3.fpIsNaN(x.v))))
+
+
+@_fmethod('clamp')
+def f_clamp(ex, st, info, args):
+    from .execu import fp_cmp
+    x, lo, hi = args
+    if not (lo.concrete and hi.concrete):
+        raise ExecError('f64::clamp with symbolic bounds')
+    if not (lo.v <= hi.v):
+        return Panic('min > max, or either was NaN')
+    if x.concrete:
+        v = x.v
+        return mk_flt(x.ty, lo.v if v < lo.v else (hi.v if v > hi.v else v))
+    xv = to_fp(x)
+    lt = to_z3bool(fp_cmp('Lt', xv, to_fp(lo)))
+    gt = to_z3bool(fp_cmp('Gt', xv, to_fp(hi)))
+    return Flt(x.ty, z3.If(lt, to_fp(lo), z3.If(gt, to_fp(hi), xv)))
